@@ -240,6 +240,9 @@ func (f *frame) frameGoal(name, cur string) (string, bool) {
 	if name == "alloc" || strings.HasPrefix(name, "G!iter!") {
 		return "", false
 	}
+	if _, vol := g.W.volatile[name]; vol {
+		return "", false
+	}
 	if f.mods == nil {
 		oldEnv := &Env{g: g, vars: map[string]Val{}, heap: f.entry, old: f.entry}
 		f.bindParams(oldEnv)
